@@ -216,7 +216,7 @@ impl FnRef {
     pub fn new(name: &str, form: FnForm) -> Self {
         let idempotent = matches!(
             name,
-            "s_clamp" | "s_even" | "s_nan0" | "s_abs" | "s_abs_all" | "s_trunc5" | "s_repl" | "s_at2sp" | "s_bang2z" | "s_sort" | "s_dedup" | "s_take3" | "g_s_sort" | "g_s_dedup" | "g_s_take3"
+            "s_clamp" | "s_even" | "s_nan0" | "s_big2inf" | "s_abs" | "s_abs_all" | "s_trunc5" | "s_repl" | "s_at2sp" | "s_bang2z" | "s_sort" | "s_dedup" | "s_take3" | "g_s_sort" | "g_s_dedup" | "g_s_take3"
         );
         FnRef { name: name.to_string(), form, idempotent }
     }
@@ -443,6 +443,8 @@ pub struct Decl {
     pub pre_sans: Vec<SanSpec>,
     /// C02: the glue must not name the error type (whatever error type an accepted unit has is fine)
     pub opaque_err: bool,
+    /// a specific type name instead of the generated one (hostile names)
+    pub name_override: Option<String>,
 }
 
 impl Decl {
@@ -467,6 +469,7 @@ impl Decl {
             pre_vals: vec![],
             pre_sans: vec![],
             opaque_err: false,
+            name_override: None,
         }
     }
     pub fn has_validation(&self) -> bool {
@@ -989,6 +992,16 @@ impl Decl {
         w!(o, "pub const ONE: {bty} = {};", if self.inner.is_float() { "1.0" } else { "1" });
         w!(o, "pub mod k {{ pub const KM: {bty} = {km}; }}");
         w!(o, "pub const fn kmax() -> {bty} {{ {} }}", if self.inner.is_float() { "42.0" } else { "42" });
+        // user constants and functions with the names a code generator is most tempted to use for its own
+        // locals: a bound expression mentioning them must keep meaning the user's item
+        let (v10, v100, v90) = if self.inner.is_float() { ("10.0", "100.0", "90.0") } else { ("10", "100", "90") };
+        w!(o, "pub const MIN: {bty} = {v10};");
+        w!(o, "pub const MAX: {bty} = {v100};");
+        w!(o, "pub const LOWER: {bty} = {v10};");
+        w!(o, "pub const UPPER: {bty} = {v100};");
+        w!(o, "pub const RANGE: {bty} = {v90};");
+        w!(o, "pub const fn lower() -> {bty} {{ {v10} }}");
+        w!(o, "pub const fn upper() -> {bty} {{ {v100} }}");
         // constants of *another* type than the bound type (a bound spelled with them cannot be honoured)
         w!(o, "pub const WIDE: i64 = 300;");
         w!(o, "pub const WIDEF: f64 = 1e300;");
